@@ -504,6 +504,10 @@ def run(ctx: core.Ctx) -> int:
     from . import c15 as _c15pp
     ctx.rule("PY-PURE", "no module-level / class-level mutable state shared between filters (shared with C01)")
     _c15pp.gen_pure(ctx, {"python": "py/formak/python.py", "common": "py/formak/common.py"}, rule="PY-PURE", floor=40)
+    # the reading transform builds from a sensor's columns is that sensor's Reading.from_data (shared with C13)
+    from . import c13 as _c13mr
+    ctx.rule("MAKE-READING", "make_reading(key, data=...) is that sensor's Reading.from_data(data) (shared with C13)")
+    _c13mr.make_reading_guard(ctx, mod)
     return core.finish(ctx, explanation="structural (def-use resolved) rules on the adapter's row consumption and call sequence, E3 normal form of the "
                                         "NIS and score, effect analysis", **META)
 
